@@ -6,7 +6,7 @@ import ast
 import re
 
 from engine.core import AnalysisError, Repo, kwarg_of, norm, walk_no_nested
-from engine.flow import enum_paths, path_calls, path_facts
+from engine.flow import enum_paths, fact_get, path_calls, path_facts
 from engine.mutate import Mutant
 from engine.report import Result
 from engine.units import Qn, Raises, UnitInterp
@@ -468,10 +468,10 @@ def out_rule(repo, res, inv):
         saw_effect = False
         for o in outs:
             fm = o.factmap()
-            given = fm.get("out is None") is False or fm.get("out is not None") is True
+            given = fact_get(fm, "out is None") is False
             if not given or isinstance(o.value, Raises):
                 continue
-            hasunits = fm.get("getattr(out, 'units', None) is not None")
+            hasunits = fact_get(fm, "getattr(out, 'units', None) is not None")
             eff = [e for e in o.effects if e[0] == "setattr" and e[1] == "out.units"]
             if hasunits is True:
                 saw_effect = saw_effect or bool(eff)
@@ -563,7 +563,7 @@ def dispatch_rule(repo, res):
         val = norm(end[1].value) if end[0] == "return" and end[1].value is not None else end[0]
         if facts.get(f"{func} in _UNSUPPORTED_FUNCTIONS") is True:
             res.check(val == "NotImplemented", f"path#{i}:unsupported", fn.where(), "unsupported functions must return NotImplemented", "NotImplemented", val, rid=r6)
-        elif facts.get(f"{func} not in _HANDLED_FUNCTIONS") is True:
+        elif fact_get(facts, f"{func} not in _HANDLED_FUNCTIONS") is True:
             res.check(val == f"{func}._implementation(*{args}, **{kwargs})", f"path#{i}:default", fn.where(), "unhandled functions must fall through to NumPy's implementation with untouched arguments", f"{func}._implementation(*{args}, **{kwargs})", val, rid=r6)
         elif val == "NotImplemented":
             res.ok(f"path#{i}:foreign-types", r6)
